@@ -124,6 +124,21 @@ def main():
                 if o[name] != table[(a + k - 1, k)]:
                     ck.violation("multiset-coefficient", {"fn": name, "n": a, "k": k, "impl": o[name], "model_limbs": table[(a + k - 1, k)]},
                                  key={"site": name, "n": a, "k": k})
+    # N itself: count_unique_genotypes(n_alleles, ploidy) (sizes GP / GL and bounds call-exact's streaming enumeration)
+    ng = [(a, k) for a in range(1, 260) for k in range(1, 25) if (a + k - 1, k) in table and unlimb(table[(a + k - 1, k)]) < 2**53]
+    rr = pool.map_tasks("impl.c11", [{"op": "ngenotypes", "nk": ng}], mode="jit")[0]
+    if not rr["ok"]:
+        ck.violation("impl-error", {"error": rr["error"]}, key={"site": "count_unique_genotypes"})
+    else:
+        for (a, k), o in zip(ng, rr["result"]):
+            ck.evaluations += 1
+            if unlimb(table[(a + k - 1, k)]) >= 2**31:
+                ck.nontrivial += 1
+            if o["ngen"] != table[(a + k - 1, k)]:
+                ck.violation("number-of-genotypes", {"fn": "combinatorics.count_unique_genotypes", "n_alleles": a, "ploidy": k, "impl": o["ngen"],
+                                                     "model_limbs": table[(a + k - 1, k)]},
+                             key={"site": "count_unique_genotypes", "n_alleles": a, "ploidy": k})
+    ck.note("count_unique_genotypes_arguments", len(ng))
     ck.note("pascal_entries_beyond_lookup_table", beyond)
     ck.sample({"kind": "pascal-row", "n": rows[40]["n"], "row_limbs_base10000": rows[40]["row"][:8]})
 
